@@ -25,7 +25,12 @@ META = {
     "attribute values are quoted, escaped, whitespace-free (href), of an allowed scheme, and which together with the "
     "text reproduce the input.  escape/e equal MarkupSafe escaping and forceescape escapes the markup form.  indent, "
     "replace, join, format, truncate, wordwrap with a Markup receiver and plain-string arguments carrying a marker tag "
-    "never emit the marker unescaped under autoescape.",
+    "never emit the marker unescaped under autoescape.  urlize-ws: every Unicode whitespace character (str.isspace, 29 up to "
+    "U+3000) and four non-whitespace look-alikes as the separator between scheme-prefixed / URL-ish / e-mail-ish heads and "
+    "tails x extra schemes given as argument or as policy: same anchor oracle (href free of whitespace, text reproduced).  "
+    "trust-history: every history of <= 2 (thorough 3) calls of one filter expression in which the same, never-seen-before "
+    "argument text is passed as safe Markup or as plain str, in one or in fresh Environments: a plain argument never "
+    "appears raw and a step's output does not depend on the steps before it.",
     "note": "Bounded: value depth 2, string length 3, 3-4 words; autoescape on and off, template rendering and "
     "Environment.call_filter; Markup *arguments* / Markup values are trusted by definition and not counted as injection; "
     "the HTML parsing model is the WHATWG tokenizer's attribute states restricted to what the filters may emit "
@@ -409,9 +414,9 @@ def three(p, r, xs, vars_=None):
     return outs[0], raw, agree, outs
 
 
-def _script(r, xs_expr, vars_=None):
+def _script(r, xs_expr, vars_=None, setup=()):
     lines = ["import jinja2", "from markupsafe import Markup",
-             f"env = jinja2.Environment(autoescape={r.autoescape})", f"xs = {xs_expr}"]
+             f"env = jinja2.Environment(autoescape={r.autoescape})", *setup, f"xs = {xs_expr}"]
     for k, v in (vars_ or {}).items():
         lines.append(f"{k} = {v!r}")
     lines.append("print(repr(env.from_string(%r).render(xs=xs%s)))"
@@ -419,10 +424,10 @@ def _script(r, xs_expr, vars_=None):
     return "\n".join(lines) + "\n"
 
 
-def viol(p, sig, r, xs, got, why, vars_=None, xs_expr=None):
+def viol(p, sig, r, xs, got, why, vars_=None, xs_expr=None, setup=()):
     p.violation(sig, {"msg": f"{{{{ {r.src} }}}} autoescape={r.autoescape} on {xs!r} {vars_ or ''}: {why}; output {got!r}",
                       "source": r.src, "autoescape": r.autoescape, "input": repr(xs),
-                      "script": _script(r, xs_expr or repr(xs), vars_)})
+                      "script": _script(r, xs_expr or repr(xs), vars_, setup)})
 
 
 # =====================================================================================
@@ -579,6 +584,10 @@ def shard(arg):
         p.count("escape_strings", len(strs))
     elif fam == "safe-receiver":
         run_safe_receiver(p, thorough, part, nparts)
+    elif fam == "urlize-ws":
+        run_urlize_ws(p, thorough, part, nparts)
+    elif fam == "trust-history":
+        run_trust_history(p, thorough, part, nparts)
     else:
         raise AssertionError(fam)
     return p
@@ -667,6 +676,221 @@ def run_safe_receiver(p, thorough, part, nparts):
     p.count("safe_receiver_cases", len(cases) * len(recvs))
 
 
+# =====================================================================================
+# urlize: every whitespace character as a word separator x scheme-prefixed words
+# =====================================================================================
+
+ASCII_WS = " \t\n\r\f\v"
+# every character Python's Unicode database classes as whitespace (str.isspace) up to U+3000: the ASCII six, the C0
+# separators FS GS RS US, NEL, NBSP, OGHAM SPACE, U+2000-200A, LS, PS, NNBSP, MMSP, IDEOGRAPHIC SPACE
+WS_ALL = tuple(chr(c) for c in range(0x3001) if chr(c).isspace())
+WS_NEIGHBOURS = ("\x00", "\x7f", "\u200b", "\ufeff")  # look like separators but are not whitespace: may stay inside a link
+WS_HEADS = ("ja:x", "tel:5", "http://a.bc/p", "www.a.bc", "a@b.c", "x", "(ja:x)")
+WS_TAILS = ("b", "ja:y", "onx=1", "<b>", "http://a.b")
+WS_SCHEMES = (("arg", ["ja:"]), ("arg", ["ja:", "tel:"]), ("policy", ["ja:", "tel:"]), ("policy", ["tel:"]), ("none", None))
+
+
+def urlize_ws_texts(thorough):
+    out = []
+    for ws in WS_ALL + WS_NEIGHBOURS:
+        for h in WS_HEADS:
+            out.append((ws, h + ws))
+            out.append((ws, ws + h + ws + ws))
+            for t in WS_TAILS:
+                out.append((ws, h + ws + t))
+                if thorough:
+                    out.append((ws, t + ws + h + ws + t))
+                    out.append((ws, h + ws + " " + ws + t))
+    return out
+
+
+def urlize_ws_configs(thorough):
+    out = []
+    for how, schemes in WS_SCHEMES:
+        for ae in (True, False):
+            for trim in (None, 5) if thorough else (None,):
+                out.append((how, schemes, ae, trim))
+    return out
+
+
+def run_urlize_ws(p, thorough, part, nparts):
+    from markupsafe import Markup
+
+    texts = urlize_ws_texts(thorough)
+    for how, schemes, ae, trim in urlize_ws_configs(thorough)[part::nparts]:
+        kw = {}
+        if trim is not None:
+            kw["trim_url_limit"] = trim
+        if how == "arg":
+            kw["extra_schemes"] = schemes
+        r = Render("urlize", (), kw, ae)
+        setup = ()
+        if how == "policy":
+            r.env.policies["urlize.extra_schemes"] = list(schemes)
+            setup = (f"env.policies['urlize.extra_schemes'] = {list(schemes)!r}",)
+        for ws, t in texts:
+            out, raw, agree, outs = three(p, r, t)
+            if not agree:
+                bad = "routes-disagree"
+            elif isinstance(out, tuple):
+                bad = "raises-" + out[1]
+            elif ae and not isinstance(raw, Markup):
+                bad = "result-not-marked-safe"
+            else:
+                bad = check_urlize(t, str(raw), trim, None, None, False, schemes)
+            if bad:
+                viol(p, "C24/urlize-ws/" + bad, r, t, outs, bad, setup=setup)
+            if not isinstance(out, tuple) and schemes and any(f'<a href="{s_}' in str(raw) for s_ in schemes):
+                if ws in WS_ALL and ws not in ASCII_WS:
+                    p.count("urlize_ws_extra_scheme_link_next_to_non_ascii_whitespace", 1)
+                elif ws in WS_NEIGHBOURS:
+                    p.count("urlize_ws_extra_scheme_link_with_non_whitespace_control", 1)
+            if len(t) <= 6:
+                p.sig(("urlize-ws", how, repr(schemes), "U+%04X" % ord(ws), t, out))
+        if len(p.samples) < 1:
+            t = "tel:5 onx=1"
+            p.sample({"filter": "urlize", "schemes": repr(schemes), "via": how, "text": t, "output": r.render(t)}, cap=1)
+    if part == 0:
+        p.count("urlize_ws_texts", len(texts))
+
+
+# =====================================================================================
+# trust histories: the same argument text passed as safe Markup and as a plain string, in every order
+# =====================================================================================
+
+HIST_LETTERS = "qrstuvwxyz"
+HIST_RECV = ("a a\n\na a a a a", "<b>a</b> a\n<i>a\n\na a a")
+HIST_ENVS = ("shared", "fresh")
+
+
+def hist_marker(n):
+    """a tag that no earlier call in this process has seen: one per (position, receiver, history, environment mode)."""
+    s = ""
+    for _ in range(4):
+        s = HIST_LETTERS[n % 10] + s
+        n //= 10
+    if n:
+        raise core.HarnessError("trust-history: marker space exhausted")
+    return "<" + s + ">"
+
+
+def trust_positions():
+    """(filter, args, kwargs, receiver kind): w is the one string parameter whose trust varies along a history."""
+    w = Var("w", None)
+    C = []
+    for first in (False, True):
+        for blank in (False, True):
+            C.append(("indent", (w, first, blank), {}, "markup"))
+    C.append(("indent", (), {"width": w}, "markup"))
+    C.append(("indent", (w,), {}, "plain"))
+    C.append(("indent", (w, True, True), {}, "plain"))
+    C.append(("replace", ("a", w), {}, "markup"))
+    C.append(("replace", ("a", w, 1), {}, "markup"))
+    C.append(("join", (w,), {}, "list-markup"))
+    C.append(("join", (), {"d": w}, "list-mixed"))
+    C.append(("join", (w, "a"), {}, "list-attr"))
+    C.append(("format", (w,), {}, "markup-fmt"))
+    C.append(("format", (), {"k": w}, "markup-fmtk"))
+    C.append(("truncate", (9, True, w, 0), {}, "markup"))
+    C.append(("truncate", (9,), {"end": w, "leeway": 0}, "markup"))
+    C.append(("wordwrap", (2, True, w), {}, "markup"))
+    C.append(("wordwrap", (3,), {"wrapstring": w}, "markup"))
+    return C
+
+
+def trust_histories(thorough):
+    out = []
+    for n in range(1, 4 if thorough else 3):
+        out += ["".join(h) for h in itertools.product("MP", repeat=n)]
+    return out
+
+
+def _hist_receiver(kind, s):
+    from markupsafe import Markup
+
+    if kind == "markup":
+        return Markup(s), f"Markup({s!r})"
+    if kind == "plain":
+        return s, repr(s)
+    if kind == "markup-fmt":
+        return Markup(s + "<i>%s</i>"), f"Markup({s + '<i>%s</i>'!r})"
+    if kind == "markup-fmtk":
+        return Markup(s + "<i>%(k)s</i>"), f"Markup({s + '<i>%(k)s</i>'!r})"
+    if kind == "list-markup":
+        return [Markup(s), Markup("<i>")], f"[Markup({s!r}), Markup('<i>')]"
+    if kind == "list-mixed":
+        return [Markup(s), "x<y", Markup("")], f"[Markup({s!r}), 'x<y', Markup('')]"
+    return [{"a": Markup(s)}, {"a": Markup("<i>")}], f"[{{'a': Markup({s!r})}}, {{'a': Markup('<i>')}}]"
+
+
+def _hist_script(src, xexpr, mark, hist, envmode):
+    lines = ["import jinja2", "from markupsafe import Markup", f"xs = {xexpr}",
+             "env = jinja2.Environment(autoescape=True)"]
+    for k, tr in enumerate(hist):
+        if envmode == "fresh" and k:
+            lines.append("env = jinja2.Environment(autoescape=True)")
+        warg = f"Markup({mark!r})" if tr == "M" else repr(mark)
+        lines.append(f"print({tr!r}, repr(env.from_string({'{{ ' + src + ' }}'!r}).render(xs=xs, w={warg})))")
+    return "\n".join(lines) + "\n"
+
+
+def run_trust_history(p, thorough, part, nparts):
+    """Every history of <= 2 (thorough 3) calls of one filter expression in which the same text is passed as a safe
+    Markup argument ('M') or as a plain string ('P').  Reference: a filter is a function of its arguments - a plain
+    argument is escaped next to a safe receiver and never appears raw, whatever equal-looking value was passed before
+    (Markup('<x>') == '<x>' and they hash alike, so any memo keyed on the argument confuses them); a step's output
+    does not depend on the steps before it."""
+    from markupsafe import Markup
+
+    positions = trust_positions()
+    hists = trust_histories(thorough)
+    for pi, (name, args, kwargs, kind) in enumerate(positions):
+        if pi % nparts != part:
+            continue
+        for ri, s in enumerate(HIST_RECV):
+            xs, xexpr = _hist_receiver(kind, s)
+            for ei, envmode in enumerate(HIST_ENVS):
+                normal = {}  # trust -> (normalised output, history it was first seen in)
+                for hi, hist in enumerate(hists):
+                    mark = hist_marker(((pi * len(HIST_RECV) + ri) * len(hists) + hi) * len(HIST_ENVS) + ei)
+                    esc = my_escape(mark)
+                    r = None
+                    for k, tr in enumerate(hist):
+                        if r is None or envmode == "fresh":
+                            r = Render(name, args, kwargs, True)
+                        w = Markup(mark) if tr == "M" else mark
+                        out, raw, agree, outs = three(p, r, xs, {"w": w})
+                        bad = None
+                        if not agree:
+                            bad = "routes-disagree"
+                        elif isinstance(out, tuple):
+                            bad = "raises-" + out[1]
+                        elif tr == "P" and mark in out:
+                            bad = "plain-argument-emitted-unescaped"
+                        else:
+                            norm = out.replace(mark, "{RAW}").replace(esc, "{ESC}")
+                            first_seen = normal.setdefault(tr, (norm, hist[:k + 1]))
+                            if first_seen[0] != norm:
+                                bad = "output-depends-on-history"
+                            reached = "{RAW}" in norm or "{ESC}" in norm
+                            if reached:
+                                p.count("trust_history_steps_reaching_output", 1)
+                                if k and tr == "P" and "M" in hist[:k]:
+                                    p.count("trust_history_plain_after_equal_markup", 1)
+                            if ri == 0 and envmode == "shared":
+                                p.sig(("trust-history", name, len(args), repr(sorted(kwargs)), kind, hist[:k + 1], norm))
+                        if bad:
+                            p.violation(f"C24/trust-history/{name}/{bad}", {
+                                "msg": f"{{{{ {r.src} }}}} on {xs!r}, history {hist} of w={mark!r} (M = Markup, P = plain str), "
+                                       f"environment {envmode}, step {k + 1} ({tr}): {bad}; output {outs!r}",
+                                "source": r.src, "history": hist, "step": k + 1, "environment": envmode,
+                                "script": _hist_script(r.src, xexpr, mark, hist[:k + 1], envmode)})
+                    p.count("trust_histories", 1)
+                if len(p.samples) < 1:
+                    p.sample({"filter": name, "source": r.src, "receiver": repr(xs), "history": hist, "argument": mark,
+                              "environment": envmode, "last_output": repr(out)}, cap=1)
+
+
 def run(ctx: core.Ctx):
     core.import_all_jinja()
     t = not ctx.quick
@@ -680,6 +904,10 @@ def run(ctx: core.Ctx):
         "urlize: rel always contains the policy default 'noopener'; mailto anchors may omit rel/target; a link's text is the (possibly trimmed) URL without an added scheme",
         "escaping reference: & < > \" ' -> &amp; &lt; &gt; &#34; &#39; (MarkupSafe), cross-checked against markupsafe.escape itself",
         "Markup arguments and Markup values are trusted by definition; only plain-string arguments are required to be escaped with a safe receiver",
+        "urlize-ws: 'whitespace' is str.isspace of Python's Unicode database (29 characters up to U+3000), the same class an href must be free of; "
+        "NUL, DEL, ZWSP, BOM are not whitespace and may stay inside a link",
+        "trust-history: filters are functions of their arguments (no state carried between calls, environments or templates); "
+        "each history uses an argument text no earlier call in the process has seen",
         "tojson: default policies (json.dumps, sort_keys=True); dict keys are strings; NaN/Infinity are not JSON and not enumerated",
     ]
     shards = []
@@ -690,7 +918,14 @@ def run(ctx: core.Ctx):
     shards += [("escape", i, 8, t) for i in range(8)]
     nsr = 16
     shards += [("safe-receiver", i, nsr, t) for i in range(nsr)]
+    nws = len(urlize_ws_configs(t))
+    shards += [("urlize-ws", i, nws, t) for i in range(nws)]
+    shards += [("trust-history", i, 4, t) for i in range(4)]
     ctx.pmap(shard, shards)
+    for key in ("urlize_ws_extra_scheme_link_next_to_non_ascii_whitespace", "urlize_ws_extra_scheme_link_with_non_whitespace_control",
+                "trust_history_steps_reaching_output", "trust_history_plain_after_equal_markup"):
+        if not ctx.counters.get(key):
+            raise core.HarnessError(f"family never reached its feature: {key}")
     ctx.cov["bounds"] = {
         "tojson": {"depth": 2, "string_alphabet": list(NASTY), "other_atoms": [repr(a) for a in OTHER_ATOMS],
                    "values": len(json_values(t))},
@@ -698,6 +933,11 @@ def run(ctx: core.Ctx):
                     "dicts": len(xmlattr_dicts(t, 0, 1))},
         "urlize": {"words": list(WORDS), "max_words": 4 if t else 3, "texts": len(urlize_texts(t)), "argument_tuples": ncfg + 1},
         "escape": {"alphabet": list(ESC_SIGMA), "max_length": 4 if t else 3},
+        "urlize_whitespace": {"separators": ["U+%04X" % ord(c) for c in WS_ALL + WS_NEIGHBOURS], "heads": list(WS_HEADS),
+                              "tails": list(WS_TAILS), "schemes": [[h, s_] for h, s_ in WS_SCHEMES],
+                              "texts": len(urlize_ws_texts(t)), "configs": nws},
+        "trust_history": {"positions": len(trust_positions()), "receivers": list(HIST_RECV), "histories": trust_histories(t),
+                          "environment_modes": list(HIST_ENVS)},
         "safe_receiver": {"receiver_alphabet": list(RECV_SIGMA), "max_fragments": 4 if t else 3,
                           "argument_positions": len(safe_receiver_cases())},
     }
